@@ -151,6 +151,10 @@ func (eng *Engine) verifyFunctionSpec(fn *ssa.Function, modes Modes, spec map[st
 	for i, p := range fn.Params {
 		n := g.havoc("p_"+p.Name(), g.sortOf(p.Type()))
 		args = append(args, n)
+		if g.paramTerms == nil {
+			g.paramTerms = map[string]string{}
+		}
+		g.paramTerms[p.Name()] = n
 		isRecv := i == 0 && fn.Signature.Recv() != nil
 		if f := spec[p.Name()]; f != nil {
 			// specialised parameter: the value is exactly this function
